@@ -30,9 +30,20 @@ structure CIndex where
   lastRecord : Int := 0
 deriving DecidableEq, Repr, Inhabited
 
+/-- the upper bound of `validIndexPos`: `(1<<(minShift+depth*3) - 1) - 1` computed on Go's 64-bit `int`:
+`2^(minShift+3·depth) - 2` up to a shift of 63 (at 63 the two wrap-arounds cancel), and `-2` from a shift
+of 64 on (`1 << 64 = 0`), where NO position is valid and every `Add` is rejected -/
+def posBound (minShift depth : Nat) : Int :=
+  if minShift + 3 * depth < 64 then (2 : Int) ^ (minShift + 3 * depth) - 2 else -2
+
 /-- `validIndexPos` -/
 def validPos (minShift depth : Nat) (p : Int) : Bool :=
-  decide (-1 ≤ p) && decide (p ≤ (2 : Int) ^ (minShift + 3 * depth) - 2)
+  decide (-1 ≤ p) && decide (p ≤ posBound minShift depth)
+
+theorem posBound_of_le {ms d : Nat} (h : ms + 3 * d ≤ 63) : posBound ms d = (2 : Int) ^ (ms + 3 * d) - 2 := by
+  unfold posBound
+  have : ms + 3 * d < 64 := by omega
+  simp [this]
 
 /-- what `csi.Index.Add(r, c, mapped, placed)` is called with -/
 structure CRec where
